@@ -49,6 +49,12 @@ CHECKS = {
  "C09": ("generated edit/option/fault histories on one build directory driven through the real CLI; invariant: bytes == clean build after every success, faulted runs exit != 0", "§4 C09",
          "Stateful generation of histories (add/modify/rename/remove sources, option changes by flag or TOML, invocations with injected faults at every step kind and in the driver, in five modes); after every successful invocation the font must equal a clean build of the current inputs in an empty directory, and every invocation in which a fault fired must exit non-zero. Fault enumeration over step kinds x modes, sampled histories.",
          "Trusted: fault injector (sitecustomize + PATH shims) logs every firing; crash points are per step kind, not per instruction."),
+ "C17": ("generated valid source sets + one injected defect (14 classes) through the real CLI; exit status / no fresh font, else C04-style judgement of the emitted font", "§4 C17",
+         "Generated valid sets with one planted defect at a drawn position, in the formats where the class applies; the real console script must exit non-zero without writing a font, and if it exits 0 every source must still be reachable at its own glyph with its own artwork. Sampling of positions/sets; the defect classes are enumerated by the generator.",
+         "Trusted: process exit status; fontTools decompilers; the reference shaper."),
+ "C20": ("enumerated single-option perturbations (flag / file / both / none) against a field->observable table on CLI-built fonts; pairs of configs vs solo builds (bytes)", "§4 C20",
+         "Every field of the option table is perturbed by flag and by file on every run (all channels and families in the thorough tier) and the observable it must determine is read from the font the real CLI writes (all other observables must stay at their expected values); every pair option is built jointly and solo and compared bytewise. Finite enumeration of fields/channels plus generated combinations.",
+         "Trusted: fontTools decompilers; reference interpreters for the transform observable; SOURCE_DATE_EPOCH for byte equality."),
 }
 NOT_APPLICABLE = []
 def main():
